@@ -120,10 +120,51 @@ fn gen_x86_bytes(t: &mut Tape) -> Vec<u8> {
     }
 }
 
+/// one MIPS32 control transfer of every kind the lifter knows, with well-formed fixed fields
+fn mips_transfer_word(t: &mut Tape) -> u32 {
+    let rs = t.below(32) as u32;
+    let rt = t.below(32) as u32;
+    let rd = if t.chance(1, 2) { 31 } else { t.below(32) as u32 };
+    let imm = match t.below(3) {
+        0 => t.below(8) as u32,
+        1 => 0xffff - t.below(8) as u32,
+        _ => t.raw() & 0xffff,
+    };
+    match t.below(12) {
+        0 => (4 << 26) | (rs << 21) | (rt << 16) | imm,  // beq (b when rs = rt = 0)
+        1 => (5 << 26) | (rs << 21) | (rt << 16) | imm,  // bne
+        2 => (6 << 26) | (rs << 21) | imm,               // blez
+        3 => (7 << 26) | (rs << 21) | imm,               // bgtz
+        4 => (1 << 26) | (rs << 21) | imm,               // bltz
+        5 => (1 << 26) | (rs << 21) | (1 << 16) | imm,   // bgez
+        6 => (1 << 26) | (rs << 21) | (16 << 16) | imm,  // bltzal
+        7 => (1 << 26) | (rs << 21) | (17 << 16) | imm,  // bgezal (bal when rs = 0)
+        8 => (2 << 26) | (t.raw() & 0x03ff_ffff),        // j
+        9 => (3 << 26) | (t.raw() & 0x03ff_ffff),        // jal
+        10 => (rs << 21) | 8,                            // jr
+        _ => (rs << 21) | (rd << 11) | 9,                // jalr
+    }
+}
+
 fn gen_word_bytes(t: &mut Tape, tr: usize) -> Vec<u8> {
     let big = matches!(TRANSLATORS[tr], "mips" | "ppc");
     let nwords = t.weighted(&[45, 30, 15, 10]) + 1;
     let mut v = Vec::new();
+    // MIPS: a control transfer followed by its delay slot, which is another control transfer half of
+    // the time (every pair of kinds), then the ordinary words
+    if matches!(TRANSLATORS[tr], "mips" | "mipsel") && t.chance(1, 5) {
+        let lead = t.below(3);
+        let mut words: Vec<u32> = (0..lead).map(|_| if t.chance(1, 2) { 0 } else { 0x2400_0000 | (t.raw() & 0x03ff_ffff) }).collect();
+        words.push(mips_transfer_word(t));
+        words.push(if t.chance(1, 2) { mips_transfer_word(t) } else { t.raw() });
+        for w in words {
+            if big {
+                v.extend_from_slice(&w.to_be_bytes());
+            } else {
+                v.extend_from_slice(&w.to_le_bytes());
+            }
+        }
+    }
     for _ in 0..nwords {
         let mut w = t.raw();
         match TRANSLATORS[tr] {
